@@ -352,8 +352,11 @@ def _rejecting_if(func, var_hint):
     return out
 
 
-def boundary(repo):
+def boundary(repo, only_wider=False):
+    """only_wider: report only tests that accept more than the documented interval (what matters to properties about
+    accepted programs, such as C07); the default also reports tests that reject legal values."""
     res = RuleResult("R-BOUNDARY")
+    narrower = set()
     window = range(-3, 70)
 
     def accepted(test, var, extra=None):
@@ -390,6 +393,8 @@ def boundary(repo):
         acc = accepted(n.test, var, extra)
         lo = min(acc) if acc else None
         hi = max(acc) if acc else None
+        if acc is not None and acc <= {v for v in window if want(v)}:
+            narrower.add(f"R-BOUNDARY|{rel}|{fname}|{var}|boundary")
         res.add(f"{rel}|{fname}|{var}|boundary", f"{fname} rejects `{ast.unparse(n.test)}`, i.e. accepts {var} in "
                 f"[{lo if lo != window[0] else '-inf'}, {hi if hi != window[-1] else '+inf'}]; documented rule: {what}",
                 rel, n.lineno, fname)
@@ -411,26 +416,36 @@ def boundary(repo):
             for branch, signed in ((n.body, True), (n.orelse, False)):
                 for st in branch:
                     if isinstance(st, ast.Assign) and isinstance(st.value, ast.Tuple) and len(st.value.elts) == 2:
-                        ranges[signed] = (st.value.elts, n.test.id)
+                        ranges[signed] = (st.value.elts, [x for x in branch[:branch.index(st)] if isinstance(x, ast.Assign)
+                                                           and len(x.targets) == 1 and isinstance(x.targets[0], ast.Name)])
     if len(ranges) != 2:
         raise AnalysisError("enum range tuples not found")
     bits_var = None
     for n in walk_no_nested_funcs(f.node):
         if isinstance(n, ast.Assign) and isinstance(n.value, ast.Call) and "ENUM_MAXIMUM_BITS" in ast.unparse(n.value):
             bits_var = n.targets[0].id
-    for signed, (elts, _) in ranges.items():
+    for signed, (elts, locals_) in ranges.items():
+        reported = False
         for w in range(1, 65):
             res.instances += 1
+            if reported:
+                continue
             try:
-                lo, hi = fold(elts[0], {bits_var: w}), fold(elts[1], {bits_var: w})
+                env = {bits_var: w}
+                for a in locals_:  # locals introduced in the branch before the range tuple
+                    env[a.targets[0].id] = fold(a.value, env)
+                lo, hi = fold(elts[0], env), fold(elts[1], env)
             except Unfoldable:
                 res.add(f"{CONS}|{f.name}|opaque", "enum range is not a closed expression of maximum_bits", CONS, f.line, f.name)
-                break
+                reported = True
+                continue
             if (lo, hi) != type_range(signed, w):
+                if lo >= type_range(signed, w)[0] and hi <= type_range(signed, w)[1]:
+                    narrower.add(f"R-BOUNDARY|{CONS}|{f.name}|{'signed' if signed else 'unsigned'}|range")
                 res.add(f"{CONS}|{f.name}|{'signed' if signed else 'unsigned'}|range",
                         f"{f.name}: a {'signed' if signed else 'unsigned'} enum with maximum_bits={w} is allowed values in "
                         f"[{lo}, {hi}]; {w} bits hold exactly {list(type_range(signed, w))}", CONS, f.line, f.name)
-                break
+                reported = True
     # the membership test must be inclusive on both ends
     src = cons.seg(f.node)
     res.instances += 1
@@ -447,4 +462,6 @@ def boundary(repo):
         res.add("runtime|BitBlock|limit", f"BitBlock accepts up to {m.group(1)} bits, the front end admits `bits` types up to 64",
                 "runtime/cpp/emboss_memory_util.h")
     res.analysed = [AC, CONS, "runtime/cpp/emboss_memory_util.h"]
+    if only_wider:
+        res.findings = [x for x in res.findings if x.key not in narrower and f"R-BOUNDARY|{x.key}" not in narrower]
     return res
